@@ -225,6 +225,16 @@ def run(tier, replay=None):
     viols = [o for o in out if o.get("kind") == "violation"]
     bad_ids = sorted({(v.get("scenario") or {}).get("id") for v in viols if v.get("scenario")})
     confirmed = set()
+    sample_ids = bad_ids
+    if len(bad_ids) > 12:
+        # many scenarios violated: re-execute a dozen of them (one per violation class first)
+        seen, first = set(), []
+        for v in viols:
+            i = (v.get("scenario") or {}).get("id")
+            if i is not None and v["class"] not in seen and i not in first:
+                seen.add(v["class"])
+                first.append(i)
+        sample_ids = (first + [i for i in bad_ids if i not in first])[:12]
     if bad_ids and not replay:
         by_id = {}
         for line in open(scen_path):
@@ -234,7 +244,7 @@ def run(tier, replay=None):
         n = 0
         with open(again_path, "w") as f:
             for rep_i in range(2):
-                for i in bad_ids:
+                for i in sample_ids:
                     o = dict(by_id[i])
                     o["orig"] = i
                     o["id"] = 100000 * (rep_i + 1) + i
@@ -244,8 +254,11 @@ def run(tier, replay=None):
         for o in out3:
             if o.get("kind") == "violation" and o.get("scenario"):
                 confirmed.add(o["scenario"].get("orig"))
-        vlib.log("%d scenario(s) violated, %d confirmed by re-execution" % (len(bad_ids), len(confirmed)))
-        rep.extra["unreproduced_violations"] = len(bad_ids) - len(confirmed)
+        vlib.log("%d scenario(s) violated, %d re-executed, %d confirmed" % (len(bad_ids), len(sample_ids), len(confirmed)))
+        if len(sample_ids) < len(bad_ids) and 2 * len(confirmed) >= len(sample_ids):
+            # systemic: what was not re-executed is reported as well
+            confirmed |= set(bad_ids)
+        rep.extra["unreproduced_violations"] = len([i for i in sample_ids if i not in confirmed])
     for v in viols:
         sc = v.get("scenario") or {}
         if sc and not replay and sc.get("id") not in confirmed:
@@ -257,8 +270,15 @@ def run(tier, replay=None):
     for o in results:
         classes.add(json.dumps([o.get("sig"), o.get("outcome")]))
     rep.cov["traces_validated_against_impl"] += len(results)
-    for o in results[:3]:
-        rep.add_samples([{"scenario": o.get("sig"), "observed": o.get("outcome")}], 1)
+    picked = []
+    for needle in ("stall@midbody", "+", "close@between", "drip", "garbage@", "refuse@accept"):
+        for o in results:
+            if needle in (o.get("sig") or "") and o not in picked:
+                picked.append(o)
+                break
+    for o in picked[:5]:
+        rep.add_samples([{"scenario": o.get("sig"), "observed": o.get("outcome"),
+                          "time_to_end_ms": [x.get("t_end_ms") for x in o.get("obs", [])]}], 1)
 
     # ---- 4. I->S ---------------------------------------------------------------------------------
     n_runs = 400 if thorough else 120
